@@ -254,12 +254,35 @@ def begin_run(policy, sched_rng, salt, trace):
     Sched.reset(policy, sched_rng, salt, trace)
     SimSet._counter = 0
     gc.disable()
-    try:
-        import desper.model.world as mw
-        mw.object_from_string.cache_clear()
-    except Exception:
-        pass
+    for f in _caches():
+        f.cache_clear()
     return desper
+
+
+_cache_list = None
+
+
+def _caches():
+    """Every functools cache defined at module or class level in desper (the
+    repository has one, on object_from_string): emptied at the start of each
+    run so that a run does not depend on what earlier runs looked up."""
+    global _cache_list
+    if _cache_list is None:
+        found = {}
+        for name, mod in list(sys.modules.items()):
+            if name != 'desper' and not name.startswith('desper.'):
+                continue
+            for obj in list(vars(mod).values()):
+                cands = [obj]
+                if isinstance(obj, type) and obj.__module__.startswith('desper'):
+                    cands += list(vars(obj).values())
+                for c in cands:
+                    c = getattr(c, '__func__', c)
+                    if callable(getattr(c, 'cache_clear', None)) and callable(
+                            getattr(c, 'cache_info', None)):
+                        found[id(c)] = c
+        _cache_list = list(found.values())
+    return _cache_list
 
 
 def label(obj, text):
